@@ -165,7 +165,7 @@ Stuck == /\ l <= Len(T)
                succeeds |-> ENABLED StepIf(Succeeds'),
                nohang |-> ENABLED StepIf(ObsNoHang'),
                life |-> life, sid0 |-> sid0, expect |-> E, ph |-> ph, meth |-> meth, res |-> res, rep |-> rep, mustfail |-> mustfail,
-               pk |-> pk, rd |-> rd, lk |-> lk, enc |-> enc, out |-> out, want |-> want,
+               pk |-> pk, rd |-> rd, cmp |-> cmp, cnf |-> cnf, lk |-> lk, enc |-> enc, out |-> out, want |-> want,
                heads |-> [s \in S |-> IF chan[s] = <<>> THEN "-" ELSE Head(chan[s]).t],
                store |-> store]>>)
          /\ UNCHANGED tvars
